@@ -972,27 +972,49 @@ def truncate_then_size(fx):
     truncate (directly or through helpers); the descriptor sized is a destination descriptor and the length a
     source quantity (R-ROLE, inter-procedural); no OpenOptions chain exists, so File::create is the only way a
     destination descriptor can be made."""
-    import p_role
+    import p_role, views
     obs = []
-    f = fx.fn(NEW)
-    if f is None:
-        return [anchor_ob("R-ORDER", NEW)]
-    cfg = cfg_of(f)
-    creates = [b_ for b_, t, h in ro.performers(fx, f, FILE_CREATE)]
-    sizes = [b_ for b_, t, h in ro.performers(fx, f, FTRUNCATE)]
-    oks = [bi for bi, b in enumerate(f.blocks) if not b.get("cleanup") and any(
-        s["lhs"]["l"] == 0 and s["rv"]["k"] == "agg" and s["rv"].get("variant") == "Ok" for s in b["stmts"])]
-    if not oks:
-        return [anchor_ob("R-ORDER", "CopyHandle::new has an Ok return")]
-    for what, blocks, nm in (("a truncating File::create", creates, FILE_CREATE), ("the pre-sizing ftruncate", sizes, FTRUNCATE)):
-        ok = bool(blocks) and all(any(cfg.dominates(b_, o) for b_ in blocks) for o in oks)
-        obs.append(Ob("R-ORDER", mkkey("R-ORDER", NEW, nm, 0, "before-Ok"), ok, f.loc(), NEW,
-                      "every Ok(handle) return has passed %s: %s" % (what, ok),
-                      None if ok else dict(performers=blocks, ok_blocks=oks)))
-    # the sizing follows the open on every path (the open truncates, the ftruncate then extends)
-    ok = bool(creates) and bool(sizes) and all(any(cfg.dominates(c, s_) for c in creates) for s_ in sizes)
-    obs.append(Ob("R-ORDER", mkkey("R-ORDER", NEW, FTRUNCATE, 0, "after-create"), ok, f.loc(), NEW,
-                  "the destination is sized after it was opened/truncated: %s" % ok))
+    # evaluated wherever a worker role builds a CopyHandle (constructor, builder chain, helper: all inlined)
+    hv = views.handle_ctor_views(fx)
+    if not hv:
+        return [anchor_ob("R-ORDER", "a worker role that builds a CopyHandle")]
+    seen_sites = set()
+    for lab0, f in hv:
+        lab = "worker:" + views.label_of(lab0)
+        cfg = cfg_of(f)
+        creates = [b_ for b_, t, h in ro.performers(fx, f, FILE_CREATE)]
+        sizes = [b_ for b_, t, h in ro.performers(fx, f, FTRUNCATE)]
+        aggs = []
+        for bi, b in enumerate(f.blocks):
+            if b.get("cleanup"):
+                continue
+            for s_ in b["stmts"]:
+                if s_["rv"]["k"] == "agg" and s_["rv"].get("adt") == COPYHANDLE:
+                    aggs.append(bi)
+                    seen_sites.add((s_["span"]["file"], s_["span"]["line"]))
+        for what, blocks, nm in (("a truncating File::create", creates, FILE_CREATE), ("the pre-sizing ftruncate", sizes, FTRUNCATE)):
+            ok = bool(blocks) and all(any(cfg.dominates(b_, o) for b_ in blocks) for o in aggs)
+            obs.append(Ob("R-ORDER", mkkey("R-ORDER", lab, nm, 0, "before-handle"), ok, f.loc(), lab,
+                          "every CopyHandle is built after %s: %s" % (what, ok),
+                          None if ok else dict(performers=blocks, handle_blocks=aggs)))
+        # the sizing follows the open on every path (the open truncates, the ftruncate then extends)
+        ok = bool(creates) and bool(sizes) and all(any(cfg.dominates(c, s_) for c in creates) for s_ in sizes if any(
+            cfg.dominates(s_, a_) for a_ in aggs))
+        obs.append(Ob("R-ORDER", mkkey("R-ORDER", lab, FTRUNCATE, 0, "after-create"), ok, f.loc(), lab,
+                      "the destination is sized after it was opened/truncated: %s" % ok))
+    # every construction site of the handle in libxcp is one of those
+    k_ = 0
+    for g in ro.fns_in_scope(fx, crates=("libxcp",)):
+        for b in g.blocks:
+            if b.get("cleanup"):
+                continue
+            for s_ in b["stmts"]:
+                if s_["rv"]["k"] == "agg" and s_["rv"].get("adt") == COPYHANDLE and \
+                        (s_["span"]["file"], s_["span"]["line"]) not in seen_sites:
+                    obs.append(Ob("R-WHO", mkkey("R-WHO", g.path, "construct CopyHandle", k_, "outside-workers"), False,
+                                  "%s:%d" % (s_["span"]["file"], s_["span"]["line"]), g.path,
+                                  "a CopyHandle is built outside the workers' per-operation code (open/size ordering not checked)"))
+                    k_ += 1
     # roles of the sizing call and of the handle's fields (inter-procedural)
     robs = [o for o in p_role.role_obs(fx) if ("allocate_file" in o.key or "ftruncate" in o.key or "CopyHandle::CopyHandle" in o.key
                                                or FILE_CREATE in o.key) and not o.trivial]
